@@ -29,6 +29,14 @@ CHECKS = {
    text="Seeded sequential-history refinement: random operation histories (set/update/delete/merge/rest/range/literal with duplicates/permuted rebuild) over per-run universes of 3..16 mixed-type keys are applied in lock-step to object.Map via the Go API, to a variable of a real grol session via source text, and to an association-list model; after every operation length, lookup of every key, iteration order, printed form, equality with a canonically built twin and immutability of + operands are compared. No faults apply (stated); sampled, not enumerated.",
    note="Cross-type key rank is learned from one canonical build per run (history independence rather than a hard-coded rank); int/float keys of equal value, NaN and -0 are left to C12.",
    tech="deterministic simulation harness used as seeded history search: sequential refinement of the real map implementation (API and language level) against a small executable reference model"),
+ "C14": dict(cat="exploration", ref="5.9",
+   text="Seeded worlds in a scratch directory: globals of 19 generator-known value kinds (int extremes, every float class, strings over all bytes, nested containers with keys of every type, named functions and lambdas from the workload grammar) are bound, saved (save(), SaveGlobals, AutoSave), the interpreter restarted (fresh state), loaded (load() whole-file or AutoLoad line by line), observed as typed canonical trees, functions re-called on fixed arguments, and saved again, for up to 3 cycles under MaxValueLen in {0,10,100,4000}; faults: state file truncated at a random byte or one byte flipped between save and load, and a binding above bufio.Scanner's 64 KiB limit. Oracles: equal value and type, same function behaviour, one line per binding = reported count, byte-identical re-save, over-long values absent, damaged file never panics AutoLoad and every intact line is restored.",
+   note="A restart is a fresh eval.State in the same OS process. Recorded findings (integral floats, -0, MinInt64, closures, two printer regroupings) are matched by value kind / fixed probe; generated function bodies avoid the two recorded printer regroupings.",
+   tech="deterministic simulation: seeded save/restart/load histories on a real scratch file system with injected torn/flipped state files, checked against generator-known values"),
+ "C18": dict(cat="fault_enumeration", ref="5.12",
+   text="For each generated pair (previous state A, new state B; 0..200 bindings) a reference worker process performs the real AutoSave twice and reports the crash points passed; then every crash point (before/after CreateTemp, after each written binding, after the last write, before/after rename) is enumerated by a fresh worker that SIGKILLs itself there, and ./.gr must be byte-identical to file(A) or file(B); write failures are injected with RLIMIT_FSIZE at a stride of byte offsets (EFBIG from the kernel): AutoSave must report an error and leave file(A); unchanged state must not be saved at all.",
+   note="Crash = process death (page cache survives); power loss / fsync ordering is out of scope as the property speaks of process death. The unwritable-directory fault is skipped when running as root.",
+   tech="deterministic simulation with crash-point enumeration: worker processes killed at hook-defined points of the save path, kernel-injected write failures, on-disk state compared with the two legal versions"),
  "C19": dict(cat="exploration", ref="5.13",
    text="Seeded attack histories: constants of every value type incl. arrays/maps on both sides of the size thresholds are bound, then hit by random sequences of 26 kinds of mutation attempts (assignment forms, ++/--, index/dot assignment, element deletion, loop variable, parameter name, nested functions and loops, self-append, catch-wrapped, alias, mutating callee, cancelled slow assignment) with explicit del+rebind interleaved; two real sessions (registers on/off) run in lock-step and after every attempt every bound constant is re-observed in both; outcome classes must agree between the modes. A monitor mode re-observes every upper-case name of general generated sessions after every input. Recorded alias-based findings (rooted in C06) are matched narrowly and the search continues past them.",
    note="An attempt may fail or be a no-op; re-binding an equal value is allowed by the language. Attempts on a name that is not currently bound are skipped.",
